@@ -32,11 +32,14 @@ MkArgs(s, ds) == [i \in 1..Len(ds) |-> ArgVal(ds[i], IF IsParam(ParamOf(s, i)) T
 OneSpecs == {[ps |-> <<p>>, var |-> NoParam, tcb |-> t, icb |-> i, rr |-> r] : p \in Params, t \in Tcbs, i \in Icbs, r \in BOOLEAN}
             \cup {[ps |-> <<>>, var |-> p, tcb |-> t, icb |-> i, rr |-> r] : p \in Params, t \in Tcbs, i \in Icbs, r \in BOOLEAN}
 ThinCb(s) == Thorough \/ (s.tcb \in {"okT", "panic"} /\ s.icb \in {"conf", "nonconf", "unknown"} /\ s.rr)
-OneLines == {[spec |-> s, dss |-> SetToSeq(SeqsUpTo(Descs, IF IsParam(s.var) THEN 2 ELSE 1) \cup {<<"conf", "conf">>})] : s \in {x \in OneSpecs : ThinCb(x)}}
+\* derived functions (WithNewDescriptions, Unpredictable, Proxy) of the string-parameter specifications
+Wraps == {"redesc", "unpred", "proxy"}
+Wrapped(S0) == {s @@ [wrap |-> "none"] : s \in S0} \cup {s @@ [wrap |-> w] : s \in {x \in S0 : \A i \in 1..Len(x.ps) : x.ps[i].ty = TStr}, w \in Wraps}
+OneLines == {[spec |-> s, dss |-> SetToSeq(SeqsUpTo(Descs, IF IsParam(s.var) THEN 2 ELSE 1) \cup {<<"conf", "conf">>})] : s \in Wrapped({x \in OneSpecs : ThinCb(x) /\ (IsParam(x.var) => x.var.ty = TStr \/ TRUE)})}
 \* the full product, sampled
 POpt == Params \cup {NoParam}
-SampleSpace == [p1 : POpt, p2 : POpt, var : POpt, tcb : Tcbs, icb : Icbs, rr : BOOLEAN, ds : SeqsUpTo(Descs, 3)]
-ToSpec(x) == [ps |-> (IF IsParam(x.p1) THEN <<x.p1>> ELSE <<>>) \o (IF IsParam(x.p2) THEN <<x.p2>> ELSE <<>>), var |-> x.var, tcb |-> x.tcb, icb |-> x.icb, rr |-> x.rr]
+SampleSpace == [p1 : POpt, p2 : POpt, var : POpt, tcb : Tcbs, icb : Icbs, rr : BOOLEAN, ds : SeqsUpTo(Descs, 3), wrap : Wraps \cup {"none"}]
+ToSpec(x) == [wrap |-> x.wrap] @@ [ps |-> (IF IsParam(x.p1) THEN <<x.p1>> ELSE <<>>) \o (IF IsParam(x.p2) THEN <<x.p2>> ELSE <<>>), var |-> x.var, tcb |-> x.tcb, icb |-> x.icb, rr |-> x.rr]
 SampleLines == {[spec |-> ToSpec(x), dss |-> <<x.ds, x.ds \o <<"conf">>, <<"conf">> \o x.ds>>] : x \in RandomSubset(NSample, SampleSpace)}
 Lines == IF Fam = "one" THEN OneLines ELSE SampleLines
 Expand(ln) == [spec |-> ln.spec, argss |-> [k \in 1..Len(ln.dss) |-> MkArgs(ln.spec, ln.dss[k])]]
